@@ -959,13 +959,16 @@ class Lattice:
                 raise ValueError('got non-1D array in `mps_inds` ' + str(mps_inds_ax.shape))
             lat_inds_ax = self.mps2lat_idx(mps_inds_ax)
             shape = list(self.shape)
-            max_i = np.max(mps_inds_ax)
-            if max_i >= self.N_sites:
-                shape[0] += (max_i - self.N_sites) * self.N_rings // self.N_sites + 1
-            min_i = np.min(mps_inds_ax)
-            if min_i < 0:
+            # enlarge the first dimension such that all `x_0` fit; take them from the lattice indices:
+            # for orders which are not monotonic in `x_0` (or irregular lattices) they can not be
+            # inferred from the MPS indices alone
+            max_x = np.max(lat_inds_ax[:, 0])
+            if max_x >= shape[0]:
+                shape[0] = max_x + 1
+            min_x = np.min(lat_inds_ax[:, 0])
+            if min_x < 0:
                 # we use numpy indexing to simply wrap around negative indices
-                shape[0] += (abs(min_i) - 1) * self.N_rings // self.N_sites + 1
+                shape[0] += -min_x
             if not include_u_ax:
                 shape = shape[:-1]
                 lat_inds_ax = lat_inds_ax[:, :-1]
